@@ -2,9 +2,10 @@ use rusty_common::{AtPos, CaseInsensitiveString, Position, Positioned};
 use rusty_linter::core::{LinterContext, ScopeName};
 use rusty_linter::names::Names;
 use rusty_parser::{
-    Assignment, BareName, BuiltInFunction, BuiltInSub, DimVar, Expression, ExpressionType,
-    FileHandle, FunctionImplementation, GlobalStatement, HasExpressionType, Name, Parameter,
-    Program, Statement, Statements, SubImplementation, TypeQualifier, UserDefinedTypes,
+    Assignment, BareName, BuiltInFunction, BuiltInSub, CaseBlock, ConditionalBlock, DimVar,
+    Expression, ExpressionType, FileHandle, FunctionImplementation, GlobalStatement,
+    HasExpressionType, IfBlock, Name, Parameter, Program, Statement, Statements,
+    SubImplementation, TypeQualifier, UserDefinedTypes,
 };
 use rusty_variant::Variant;
 
@@ -324,16 +325,72 @@ impl InstructionGenerator {
 
     fn move_data_statements_first(statements: Statements) -> Statements {
         let mut data_statements: Statements = vec![];
-        let mut other_statements: Statements = vec![];
-        for statement in statements {
-            if Self::is_data_statement(&statement.element) {
-                data_statements.push(statement);
-            } else {
-                other_statements.push(statement);
-            }
-        }
+        let mut other_statements = Self::extract_data_statements(statements, &mut data_statements);
         data_statements.append(&mut other_statements);
         data_statements
+    }
+
+    /// Removes the DATA statements from the given statements, also from
+    /// the blocks nested in them, and collects them in source order.
+    /// DATA is not executable: it counts wherever it is written in the module.
+    fn extract_data_statements(statements: Statements, data: &mut Statements) -> Statements {
+        let mut result: Statements = vec![];
+        for Positioned { element, pos } in statements {
+            if Self::is_data_statement(&element) {
+                data.push(element.at_pos(pos));
+                continue;
+            }
+            let element = match element {
+                Statement::IfBlock(IfBlock {
+                    if_block,
+                    else_if_blocks,
+                    else_block,
+                }) => Statement::IfBlock(IfBlock {
+                    if_block: Self::extract_data_from_conditional_block(if_block, data),
+                    else_if_blocks: else_if_blocks
+                        .into_iter()
+                        .map(|b| Self::extract_data_from_conditional_block(b, data))
+                        .collect(),
+                    else_block: else_block.map(|b| Self::extract_data_statements(b, data)),
+                }),
+                Statement::SelectCase(mut select_case) => {
+                    select_case.case_blocks = select_case
+                        .case_blocks
+                        .into_iter()
+                        .map(|case_block| {
+                            let (expressions, body) = case_block.into();
+                            CaseBlock::new(expressions, Self::extract_data_statements(body, data))
+                        })
+                        .collect();
+                    select_case.else_block = select_case
+                        .else_block
+                        .map(|b| Self::extract_data_statements(b, data));
+                    Statement::SelectCase(select_case)
+                }
+                Statement::ForLoop(mut for_loop) => {
+                    for_loop.statements = Self::extract_data_statements(for_loop.statements, data);
+                    Statement::ForLoop(for_loop)
+                }
+                Statement::While(block) => {
+                    Statement::While(Self::extract_data_from_conditional_block(block, data))
+                }
+                Statement::DoLoop(mut do_loop) => {
+                    do_loop.statements = Self::extract_data_statements(do_loop.statements, data);
+                    Statement::DoLoop(do_loop)
+                }
+                other => other,
+            };
+            result.push(element.at_pos(pos));
+        }
+        result
+    }
+
+    fn extract_data_from_conditional_block(
+        mut block: ConditionalBlock,
+        data: &mut Statements,
+    ) -> ConditionalBlock {
+        block.statements = Self::extract_data_statements(block.statements, data);
+        block
     }
 
     fn is_data_statement(statement: &Statement) -> bool {
